@@ -198,6 +198,9 @@ def run(chk):
     rule_r1(chk)
     rule_r2(chk)
     rule_r3(chk)
+    from . import c01, c03
+    c03.rule_r7(chk, rid="C08-R4")
+    c01.rule_r6(chk, rid="C08-R5")
     chk.assumptions = [
         "that smoothed means reproduce data and equations is numerical: NOT decided",
         "Solution.Ua/Ta/Pa/Ka/Za form one consistent triangular representation (C01)",
